@@ -65,8 +65,16 @@ PROPS["C19"] = dict(
          "At every stage (result of EmbedObject, finished chain, GRPCWrap, second GRPCWrap) ExtractObject into a ZERO target of the value's own Go type must return true and leave the target reflect.DeepEqual and json.Marshal-equal to a target prepared in the same way and handed to json.Unmarshal together with the JSON text EmbedObject wrote (nothing of encoding/json's null rules is modelled); "
          "extraction-target kinds of such a chain: a USED target of the own type (pointer to other content, filled slice with spare capacity, map with other keys, struct with every field set, non-empty RawMessage ...: null resets a pointer / slice / map / interface and leaves a struct or number alone, a map target keeps its other keys - whatever json.Unmarshal does), "
          "*any fresh and *any that held a map, and the re-used *json.RawMessage (nil / with spare capacity) and []byte Unmarshaler of the other objects (both then overwritten by the caller). A target that cannot take the text under encoding/json itself (number beyond float64 into interface{}) asserts nothing; RawMessage / Unmarshaler targets must then hold the text itself. "
-         "exhaustive: every list up to depth 2 over (plain text, JSON-like text, inner GRPCWrap, Join with a side error) x 10 classes x embedding level x 79 literal objects x (zero target + 6 kinds), an eighth (thorough: half) of the combinations at depth 2; rapid: one embedded object in six, half of them null shapes, parameter texts half fixed half drawn (numbers of up to 60+30 digits with exponents, strings and raw JSON built around the literals). "
+         "exhaustive: every list up to depth 2 over (plain text, JSON-like text, inner GRPCWrap, Join with a side error) x 10 classes x embedding level x 89 literal objects x (zero target + 6 kinds), an eighth (thorough: half) of the combinations at depth 2; rapid: one embedded object in six, half of them null shapes, parameter texts half fixed half drawn (numbers of up to 60+30 digits with exponents, strings and raw JSON built around the literals). "
          "Literal objects of a batch need not be distinct; length targets pad wrap texts only. Classes object_json_is_null, object_json_is_bare_bool/number/string, object_json_is_empty_container, object_json_holds_null_inside_a_container, object_json_holds_the_word_null_in_a_string, literal_shape:*, literal_object_extracted_into_*. "
+         "FOREIGN EXTRACTION TARGETS AND OBJECTS THAT MARSHAL MORE THAN THEY DECLARE (foreign.go): the type of the caller's target differs from the type of the embedded object the way real callers' do - narrow (a struct with 2 of the object's fields), wide (all fields of Obj + 3 more), "
+         "cased (no json tags, field names differ from the keys in case only: encoding/json matches case-insensitively), embedded (the fields spread over an anonymous struct and an anonymous pointer-to-struct), loose (fields of type any / json.Number / []any / map[string]any / json.RawMessage), empty (struct{}), "
+         "typed (map[string]json.RawMessage), mismatch (the field for key s is an int), scalar (int64), strings ([]string); zero, or USED (+used: json.Unmarshal of a fixed other object into it before, absent keys must keep their old content) - 17 kinds, for every kind of embedded object (Obj struct, generated message, literal object). "
+         "Three more object shapes (30 in all): discriminated (a struct whose MarshalJSON adds a \"kind\" key and that has no UnmarshalJSON, so its own type does not decode the key), discriminated_ptr (pointer-receiver MarshalJSON adding \"@type\" and a \"meta\" object), embedded_fields (a struct with anonymous embedded struct fields by value and by pointer), "
+         "each extracted into a zero / used target of its own type and into the other kinds like any literal object. Oracle, purely differential (ExtractObject 'returns ... whether err contains the object value and it was extracted successfully', the object travels as its json-marshaled version): at every stage ExtractObject must return true "
+         "exactly when json.Unmarshal of the JSON text EmbedObject wrote into an identically prepared target returns nil (sig errors:extract-failed / errors:extract-reported-undecodable), and on success leave the target reflect.DeepEqual and json.Marshal-equal to that one (targets holding a RawMessage: equal after re-rendering through interface{}, "
+         "because EmbedObject spells an invalid byte as the escape \\ufffd); after a refused extraction the target is not compared. exhaustive: every list up to depth 1 (thorough 2) over (plain text, JSON-like text, inner GRPCWrap, Join with a side error) x 10 classes x embedding level x 16 objects (3 Obj structs, 8 literal objects of every JSON form "
+         "incl. raw objects with keys in both spellings / wrong value types, the 3 new shapes, 2 generated messages) x 17 kinds, half of the combinations at depth >= 1; rapid: a third of the caller-owned targets are foreign. Classes foreign_target_decodes:<kind>, foreign_target_cannot_take_the_object:<kind>, object_json_has_keys_its_own_type_does_not_decode. "
          "RAW BYTES: error texts and object strings are Go strings, not necessarily UTF-8. Inside a case every text is valid UTF-8 and a rune U+F780..U+F7FF stands for the raw byte 0x80..0xFF (so the JSON form of the case is exact); the library gets the decoded bytes. "
          "Wrap texts, side texts, object strings / keys and code messages may hold invalid bytes (Latin-1, lone continuation bytes, truncated sequences, surrogates, overlong forms, 0xFF) and genuine U+FFFD characters "
          "(one rapid chain in six draws two thirds of its texts from such pieces, so that raw bytes in the wrapping meet U+FFFD in the object's JSON text; exhaustive: 4 raw styles, 2 raw objects in the section above, 2 raw code messages). "
@@ -87,6 +95,8 @@ PROPS["C19"] = dict(
                  "'the same object' for a message is proto.Equal (nil and empty repeated/bytes fields coincide, an absent and an empty sub-message do not) plus an identical json.Marshal text",
                  "an object whose JSON text is null (typed nil pointer, nil slice / map ...) or another bare literal is an embedded object like any other: EmbedObject documents only 'non-nil object' (the interface) and json-marshalling, ExtractObject documents json-unmarshalling into o; "
                  "'extractable' for it means ExtractObject returns true and the target - zero or used - ends up as json.Unmarshal of the embedded text leaves it",
+                 "'extractable' is relative to the target the caller hands in: encoding/json (named by EmbedObject, used by ExtractObject) decides whether a target can take the embedded JSON text - unknown keys are skipped, absent keys leave fields alone, keys match fields case-insensitively, "
+                 "a value of the wrong JSON type is an error; ExtractObject is held to exactly that verdict in both directions and, on success, to that content",
                  "for objects whose strings are not valid UTF-8 'the same object' means the object the library extracts right after EmbedObject (JSON cannot carry the invalid bytes)",
                  "'any chain of wrapping around it' is read to include the standard library's other %w forms (several %w verbs, errors.Join) "
                  "as long as the class is the only class in the tree, and chains in which GRPCWrap (idempotent by the statement) was already "
